@@ -170,106 +170,217 @@ Section Proofs.
 
   (* ---- crash states of UpdateSpec ---- *)
 
-  Lemma save_prims_len : forall f n s, (List.length (save_prims valid dir f n s) <= 5)%nat.
+  Lemma length_append : forall a b, String.length (a ++ b) = (String.length a + String.length b)%nat.
+  Proof. induction a; simpl; intros; auto. Qed.
+
+  (* the temporary file is never the definition itself *)
+  Lemma tmp_ne : forall p rnd, tmp_of p rnd <> p.
+  Proof.
+    unfold tmp_of. intros p rnd E. apply (f_equal String.length) in E.
+    rewrite length_append in E. simpl in E. lia.
+  Qed.
+
+  Lemma save_prims_len : forall f n s rnd, (List.length (save_prims valid dir f n s rnd) <= 8)%nat.
   Proof. intros. unfold save_prims. destruct (valid s); simpl; [|lia]. destruct (fs_mem (loc n) f); simpl; lia. Qed.
 
-  Lemma crash_fs_ge : forall f n s cut t, (5 <= cut)%nat ->
-    crash_fs valid dir f n s cut t = run_prims f (save_prims valid dir f n s).
+  Lemma crash_fs_ge : forall f n s rnd cut t, (8 <= cut)%nat ->
+    crash_fs valid dir f n s rnd cut t = run_prims f (save_prims valid dir f n s rnd).
   Proof.
-    intros. unfold crash_fs. pose proof (save_prims_len f n s).
+    intros. unfold crash_fs. pose proof (save_prims_len f n s rnd).
     rewrite firstn_all2 by lia. rewrite (proj2 (nth_error_None _ _)) by lia. reflexivity.
   Qed.
 
   Ltac cut_cases cut :=
-    destruct (le_lt_dec 5 cut) as [?L|?L];
+    destruct (le_lt_dec 8 cut) as [?L|?L];
     [ rewrite crash_fs_ge by auto
-    | destruct cut as [|[|[|[|[|cut]]]]]; [ | | | | | exfalso; lia] ].
+    | destruct cut as [|[|[|[|[|[|[|[|cut]]]]]]]]; [ | | | | | | | | exfalso; lia] ].
 
-  (* other files are never touched, in no crash state *)
-  Theorem crash_others_untouched : forall f n s cut t q,
-    q <> loc n -> fs_get q (crash_fs valid dir f n s cut t) = fs_get q f.
+  (* a text the loader rejects: every crash state is the old file system *)
+  Theorem crash_invalid : forall f n s rnd cut t, valid s = false -> crash_fs valid dir f n s rnd cut t = f.
   Proof.
-    intros f n s cut t q N. cut_cases cut; unfold crash_fs, save_prims;
-      destruct (valid s); simpl; auto; destruct (fs_mem (loc n) f); simpl; auto;
+    intros f n s rnd cut t H. cut_cases cut; unfold crash_fs, save_prims; rewrite H; simpl; auto.
+  Qed.
+
+  (* the name is free: nothing happens either *)
+  Theorem crash_missing : forall f n s rnd cut t, fs_get (loc n) f = None -> crash_fs valid dir f n s rnd cut t = f.
+  Proof.
+    intros f n s rnd cut t H. apply fs_mem_false in H.
+    cut_cases cut; unfold crash_fs, save_prims; destruct (valid s); simpl; auto; rewrite H; simpl; auto.
+  Qed.
+
+  (* files other than the definition and the temporary file are never touched, in no crash state *)
+  Theorem crash_others_untouched : forall f n s rnd cut t q,
+    q <> loc n -> q <> tmp_of (loc n) rnd -> fs_get q (crash_fs valid dir f n s rnd cut t) = fs_get q f.
+  Proof.
+    intros f n s rnd cut t q N NT.
+    destruct (valid s) eqn:V; [|now rewrite crash_invalid].
+    destruct (fs_mem (loc n) f) eqn:E; [|apply fs_mem_false in E; now rewrite crash_missing].
+    cut_cases cut; unfold crash_fs, save_prims; rewrite V, E; simpl;
+      try destruct (t <=? String.length s)%nat; simpl;
+      repeat (rewrite ?fs_get_set_eq; simpl); repeat rewrite fs_get_set_neq by auto; auto;
+      rewrite fs_get_del_neq by auto; repeat rewrite fs_get_set_neq by auto; auto.
+  Qed.
+
+  (* until the final rename the definition is the old one *)
+  Theorem crash_before_rename : forall f n s rnd cut t, (cut <= 7)%nat ->
+    fs_get (loc n) (crash_fs valid dir f n s rnd cut t) = fs_get (loc n) f.
+  Proof.
+    intros f n s rnd cut t H. pose proof (tmp_ne (loc n) rnd) as NE.
+    destruct (valid s) eqn:V; [|now rewrite crash_invalid].
+    destruct (fs_mem (loc n) f) eqn:E; [|apply fs_mem_false in E; now rewrite crash_missing].
+    destruct cut as [|[|[|[|[|[|[|[|cut]]]]]]]]; try lia; unfold crash_fs, save_prims; rewrite V, E; simpl;
       try destruct (t <=? String.length s)%nat; simpl; repeat rewrite fs_get_set_neq by auto; auto.
   Qed.
 
-  (* a text the loader rejects: every crash state is the old file system *)
-  Theorem crash_invalid : forall f n s cut t, valid s = false -> crash_fs valid dir f n s cut t = f.
+  (* after it, the new one *)
+  Theorem crash_after_rename : forall f n s rnd cut t,
+    valid s = true -> fs_get (loc n) f <> None -> (8 <= cut)%nat ->
+    fs_get (loc n) (crash_fs valid dir f n s rnd cut t) = Some s.
   Proof.
-    intros f n s cut t H. cut_cases cut; unfold crash_fs, save_prims; rewrite H; simpl; auto.
+    intros f n s rnd cut t V E C. apply fs_mem_true in E. rewrite crash_fs_ge by auto.
+    unfold save_prims. rewrite V, E. simpl.
+    repeat (rewrite fs_get_set_eq; simpl). reflexivity.
   Qed.
 
-  (* up to and including the existence check nothing has happened *)
-  Theorem crash_before_open : forall f n s cut t, (cut <= 2)%nat -> crash_fs valid dir f n s cut t = f.
+  (* C18_save_atomic (full statement, true since e29932b): in EVERY crash state - any number of completed
+     primitive steps, any number of bytes of a torn write - the definition holds the complete old or the
+     complete new text. *)
+  Theorem save_atomic : forall f n s rnd cut t,
+    fs_get (loc n) (crash_fs valid dir f n s rnd cut t) = fs_get (loc n) f \/
+    fs_get (loc n) (crash_fs valid dir f n s rnd cut t) = Some s.
   Proof.
-    intros f n s cut t H. destruct cut as [|[|[|cut]]]; try lia; unfold crash_fs, save_prims;
-      destruct (valid s); simpl; auto; destruct (fs_mem (loc n) f); simpl; auto.
+    intros. destruct (le_lt_dec cut 7) as [L|L]; [left; now apply crash_before_rename|].
+    destruct (valid s) eqn:V; [|left; now rewrite crash_invalid].
+    destruct (fs_get (loc n) f) eqn:G; [|left; rewrite crash_missing; auto].
+    right. apply crash_after_rename; auto; try lia. congruence.
   Qed.
 
-  (* after the write has completed the file holds the new text *)
-  Theorem crash_after_write : forall f n s cut t,
-    valid s = true -> fs_get (loc n) f <> None -> (4 <= cut)%nat ->
-    fs_get (loc n) (crash_fs valid dir f n s cut t) = Some s.
+  (* all primitive steps done = the effect of the operation (the temporary name was not in use) *)
+  Theorem crash_complete : forall w n s rnd cut t q, (8 <= cut)%nat ->
+    fs_get (tmp_of (loc n) rnd) (w_defs w) = None ->
+    fs_get q (crash_fs valid dir (w_defs w) n s rnd cut t) = fs_get q (w_defs (step_w w (OSave n s))).
   Proof.
-    intros f n s cut t V E C. apply fs_mem_true in E.
-    cut_cases cut; try lia; unfold crash_fs, save_prims; rewrite V, E; simpl;
-      rewrite fs_get_set_eq; simpl; now rewrite fs_get_set_eq.
-  Qed.
-
-  Lemma take_str_all : forall s, take_str (String.length s) s = s.
-  Proof. induction s; simpl; congruence. Qed.
-
-  (* the strongest statement that holds for EVERY crash state: the file is the old text or a prefix of the new *)
-  Theorem crash_old_or_prefix : forall f n s cut t,
-    fs_get (loc n) (crash_fs valid dir f n s cut t) = fs_get (loc n) f \/
-    exists k, fs_get (loc n) (crash_fs valid dir f n s cut t) = Some (take_str k s).
-  Proof.
-    intros. destruct (valid s) eqn:V; [|left; now rewrite crash_invalid].
-    destruct (fs_get (loc n) f) eqn:G.
-    - assert (E : fs_mem (loc n) f = true) by (apply fs_mem_true; congruence).
-      destruct (le_lt_dec cut 2) as [L|L]; [left; rewrite crash_before_open by auto; auto|].
-      destruct (le_lt_dec 4 cut) as [L4|L4].
-      + right. exists (String.length s). rewrite take_str_all. apply crash_after_write; auto. congruence.
-      + assert (cut = 3)%nat by lia. subst cut. right.
-        unfold crash_fs, save_prims. rewrite V, E. simpl.
-        destruct (t <=? String.length s)%nat; simpl.
-        * exists t. rewrite fs_get_set_eq. simpl. now rewrite fs_get_set_eq.
-        * exists 0%nat. rewrite fs_get_set_eq. now destruct s.
-    - left. assert (E : fs_mem (loc n) f = false) by (now apply fs_mem_false).
-      cut_cases cut; unfold crash_fs, save_prims; rewrite V, E; simpl; auto.
-  Qed.
-
-  (* all primitive steps done = the effect of the operation *)
-  Theorem crash_complete : forall w n s cut t, (5 <= cut)%nat ->
-    crash_fs valid dir (w_defs w) n s cut t = w_defs (step_w w (OSave n s)).
-  Proof.
-    intros. rewrite crash_fs_ge by auto. unfold save_prims, Model.step_w. simpl.
+    intros w n s rnd cut t q C T. pose proof (tmp_ne (loc n) rnd) as NE.
+    rewrite crash_fs_ge by auto. unfold save_prims, Model.step_w. simpl.
     destruct (valid s); simpl; auto.
     destruct (fs_mem (loc n) (w_defs w)) eqn:E; simpl; auto.
-    rewrite fs_get_set_eq. simpl. generalize (w_defs w) as g.
-    induction g as [|[k c] r IH]; simpl.
-    - now rewrite String.eqb_refl.
-    - destruct (String.eqb k (loc n)) eqn:K; simpl; rewrite K; auto. now rewrite IH.
+    repeat (rewrite fs_get_set_eq; simpl).
+    destruct (string_dec q (loc n)) as [->|N1]; [now rewrite !fs_get_set_eq|].
+    rewrite !fs_get_set_neq by auto.
+    destruct (string_dec q (tmp_of (loc n) rnd)) as [->|N2]; [rewrite fs_get_del_eq; auto|].
+    rewrite fs_get_del_neq by auto. now rewrite !fs_get_set_neq by auto.
+  Qed.
+
+  (* ---- a stray temporary file is not a DAG ---- *)
+
+  Fixpoint plain_str (s : string) : bool :=
+    match s with
+    | EmptyString => true
+    | String c r => negb (Ascii.eqb c ch_slash) && negb (Ascii.eqb c ch_dot) && plain_str r
+    end.
+
+  Lemma ext_go_plain : forall r e, plain_str r = true -> ext_go r (Some e) = e ++ r.
+  Proof.
+    induction r as [|c r IH]; simpl; intros e H.
+    - clear H. induction e; simpl; congruence.
+    - apply andb_true_iff in H. destruct H as [H H3]. apply andb_true_iff in H. destruct H as [H1 H2].
+      apply negb_true_iff in H1, H2. rewrite H1, H2. rewrite IH by auto.
+      clear. induction e; simpl; congruence.
+  Qed.
+
+  Lemma ext_go_app_dot : forall x y cur, ext_go (x ++ String ch_dot y) cur = ext_go y (Some ".").
+  Proof.
+    induction x as [|c x IH]; intros y cur.
+    - reflexivity.
+    - change ((String c x ++ String ch_dot y)) with (String c (x ++ String ch_dot y)).
+      cbn [ext_go]. destruct (Ascii.eqb c ch_slash); [apply IH|]. destruct (Ascii.eqb c ch_dot); apply IH.
+  Qed.
+
+  Lemma ext_tmp : forall x rnd, plain_str rnd = true -> ext (x ++ ".tmp-" ++ rnd) = ".tmp-" ++ rnd.
+  Proof.
+    intros. unfold ext. change (".tmp-" ++ rnd) with (String ch_dot ("tmp-" ++ rnd)).
+    rewrite ext_go_app_dot. rewrite ext_go_plain; auto.
+  Qed.
+
+  Lemma strip_prefix_some : forall pre s0 b, strip_prefix pre s0 = Some b -> s0 = pre ++ b.
+  Proof.
+    induction pre as [|c r IH]; simpl; intros s0 b H; [congruence|].
+    destruct s0 as [|d t]; [discriminate|]. destruct (Ascii.eqb c d) eqn:E; [|discriminate].
+    apply Ascii.eqb_eq in E. subst d. f_equal. auto.
+  Qed.
+
+  Lemma ext_go_after_slash : forall x b cur, ext_go (x ++ String ch_slash b) cur = ext_go b None.
+  Proof.
+    induction x as [|c x IH]; intros b cur.
+    - reflexivity.
+    - change ((String c x ++ String ch_slash b)) with (String c (x ++ String ch_slash b)).
+      cbn [ext_go]. destruct (Ascii.eqb c ch_slash); [apply IH|]. destruct (Ascii.eqb c ch_dot); apply IH.
+  Qed.
+
+  Lemma append_assoc_s : forall a b c : string, (a ++ b) ++ c = a ++ (b ++ c).
+  Proof. induction a; simpl; intros; congruence. Qed.
+
+  (* whatever the file system: the temporary file of a save is not an entry of the DAG listing *)
+  Theorem tmp_never_listed : forall g p rnd, plain_str rnd = true -> list_entry meta_ok dir g (tmp_of p rnd) = None.
+  Proof.
+    intros g p rnd H. unfold list_entry, base_in_dir.
+    destruct (strip_prefix (dir ++ "/") (tmp_of p rnd)) as [b|] eqn:S; auto.
+    destruct (has_slash b || String.eqb b ""); auto.
+    apply strip_prefix_some in S.
+    assert (E : ext b = ".tmp-" ++ rnd).
+    { pose proof (ext_tmp p rnd H) as X. unfold tmp_of in S. rewrite S in X.
+      rewrite append_assoc_s in X. unfold ext in X.
+      change ("/" ++ b) with (String ch_slash b) in X. rewrite ext_go_after_slash in X. exact X. }
+    unfold is_yaml_file. rewrite E. reflexivity.
   Qed.
 
   (* ---- rename ---- *)
 
   Lemma store_rename_get : forall f old new d,
-    store_rename dir f old new = Some d ->
+    store_rename dir f old new = (ROk, d) ->
     exists b, fs_get (loc old) f = Some b /\ fs_get (loc new) d = Some b /\
-              (loc old <> loc new -> fs_get (loc old) d = None) /\
+              (loc old <> loc new -> fs_get (loc old) d = None /\ fs_get (loc new) f = None) /\
+              (loc old = loc new -> d = f) /\
               (forall q, q <> loc old -> q <> loc new -> fs_get q d = fs_get q f).
   Proof.
     unfold store_rename. intros f old new d H.
-    destruct (fs_get (loc old) f) as [b|] eqn:G; [|discriminate].
-    exists b. injection H as <-. split; auto.
-    destruct (String.eqb (loc old) (loc new)) eqn:E.
-    - apply String.eqb_eq in E. rewrite <- E. repeat split; auto. intros; congruence.
-    - apply String.eqb_neq in E. repeat split.
+    destruct (String.eqb (loc old) (loc new)) eqn:E; simpl in H.
+    - apply String.eqb_eq in E. destruct (fs_get (loc old) f) as [b|] eqn:G; [|discriminate].
+      injection H as <-. exists b. rewrite <- E. repeat split; auto; intros; congruence.
+    - apply String.eqb_neq in E. destruct (fs_mem (loc new) f) eqn:M; [discriminate|].
+      destruct (fs_get (loc old) f) as [b|] eqn:G; [|discriminate]. injection H as <-.
+      apply fs_mem_false in M. exists b. repeat split; auto.
       + apply fs_get_set_eq.
-      + intros _. rewrite fs_get_set_neq by auto. apply fs_get_del_eq.
+      + rewrite fs_get_set_neq by auto. apply fs_get_del_eq.
+      + intros; congruence.
       + intros. rewrite fs_get_set_neq by auto. now apply fs_get_del_neq.
+  Qed.
+
+  Lemma store_rename_err : forall f old new e d, store_rename dir f old new = (e, d) -> e <> ROk -> d = f.
+  Proof.
+    unfold store_rename. intros f old new e d H N.
+    destruct (negb (String.eqb (loc old) (loc new)) && fs_mem (loc new) f); [congruence|].
+    destruct (fs_get (loc old) f); congruence.
+  Qed.
+
+  (* the target name is taken by another file: refused, unchanged *)
+  Lemma store_rename_taken : forall f old new,
+    loc old <> loc new -> fs_get (loc new) f <> None -> store_rename dir f old new = (RExists, f).
+  Proof.
+    intros f old new N T. unfold store_rename. apply String.eqb_neq in N. apply fs_mem_true in T.
+    now rewrite N, T.
+  Qed.
+
+  (* C18_rename_fresh (full statement, true since 87dde6e): a rename - client level or store level - onto a name
+     that another definition already has fails and changes nothing: no definition, history or flag. *)
+  Theorem rename_fresh : forall w old new,
+    loc old <> loc new -> fs_get (loc new) (w_defs w) <> None ->
+    step_res w (ORename old new) <> ROk /\ step_w w (ORename old new) = w /\
+    step w (OStoreRename old new) = (w, RExists, []).
+  Proof.
+    intros w old new N T. unfold Model.step_res, Model.step_w. simpl.
+    rewrite (store_rename_taken _ _ _ N T).
+    destruct (find_dag valid dir (w_defs w) old) as [[] ol]; simpl; repeat split; auto; discriminate.
   Qed.
 
   (* Whatever a rename does (client level or store level, successful or not), definitions other than the
@@ -279,34 +390,25 @@ Section Proofs.
     fs_get q (w_defs (step_w w (ORename old new))) = fs_get q (w_defs w) /\
     fs_get q (w_defs (step_w w (OStoreRename old new))) = fs_get q (w_defs w).
   Proof.
-    intros w old new q N1 N2. unfold Model.step_w. simpl. split.
+    intros w old new q N1 N2. unfold Model.step_w. simpl.
+    destruct (store_rename dir (w_defs w) old new) as [e d] eqn:S.
+    assert (O : e = ROk -> fs_get q d = fs_get q (w_defs w)).
+    { intros ->. destruct (store_rename_get _ _ _ _ S) as (b & _ & _ & _ & _ & O). auto. }
+    split.
     - destruct (find_dag valid dir (w_defs w) old) as [[] ol]; simpl; auto.
-      destruct (store_rename dir (w_defs w) old new) as [d|] eqn:S; simpl; auto.
-      destruct (store_rename_get _ _ _ _ S) as (b & _ & _ & _ & O).
+      destruct e; simpl; auto.
       destruct (find_dag valid dir d new) as [[] nl]; simpl; auto.
       destruct (hist_rename (w_hist w) ol nl); simpl; auto.
-    - destruct (store_rename dir (w_defs w) old new) as [d|] eqn:S; simpl; auto.
-      destruct (store_rename_get _ _ _ _ S) as (b & _ & _ & _ & O). auto.
+    - destruct e; simpl; auto.
   Qed.
 
   Theorem rename_flags : forall w old new, w_flags (step_w w (ORename old new)) = w_flags w.
   Proof.
     intros. unfold Model.step_w. simpl.
     destruct (find_dag valid dir (w_defs w) old) as [[] ol]; simpl; auto.
-    destruct (store_rename dir (w_defs w) old new) as [d|]; simpl; auto.
+    destruct (store_rename dir (w_defs w) old new) as [[] d]; simpl; auto.
     destruct (find_dag valid dir d new) as [[] nl]; simpl; auto.
     destruct (hist_rename (w_hist w) ol nl); simpl; auto.
-  Qed.
-
-  (* C18_rename_fresh, the part that holds: when the target name is free, a rename loses or changes no
-     definition other than the source. *)
-  Theorem rename_fresh_partial : forall w old new q b,
-    fs_get (loc new) (w_defs w) = None ->
-    q <> loc old -> fs_get q (w_defs w) = Some b ->
-    fs_get q (w_defs (step_w w (ORename old new))) = Some b.
-  Proof.
-    intros. destruct (string_dec q (loc new)) as [->|N]; [congruence|].
-    destruct (rename_others_untouched w old new q) as [R _]; auto. now rewrite R.
   Qed.
 
   Lemma name_ok_parts : forall n, name_okb dir n = true ->
@@ -331,28 +433,35 @@ Section Proofs.
     unfold load_at. rewrite CR, G. now destruct (valid b).
   Qed.
 
+  Lemma store_rename_none : forall f old new, fs_get (loc old) f = None -> fst (store_rename dir f old new) <> ROk.
+  Proof.
+    intros. unfold store_rename. destruct (negb (String.eqb (loc old) (loc new)) && fs_mem (loc new) f); simpl; [discriminate|].
+    rewrite H. simpl. discriminate.
+  Qed.
+
   (* what an accepted client rename is, for names on which the three name -> path rules agree *)
   Lemma rename_ok_char : forall w old new,
     name_okb dir old = true -> name_okb dir new = true ->
     step_res w (ORename old new) = ROk ->
     exists b d, fs_get (loc old) (w_defs w) = Some b /\ valid b = true /\
-                store_rename dir (w_defs w) old new = Some d /\
+                store_rename dir (w_defs w) old new = (ROk, d) /\
                 step_w w (ORename old new) = mkW d (h_rename (loc old) (loc new) (w_hist w)) (w_flags w).
   Proof.
     intros w old new O1 O2. unfold Model.step_res, Model.step_w. simpl.
     destruct (fs_get (loc old) (w_defs w)) as [b|] eqn:G.
     - rewrite (find_dag_present _ _ _ O1 G).
       destruct (valid b) eqn:V; simpl; [|discriminate].
-      destruct (store_rename dir (w_defs w) old new) as [d|] eqn:S; simpl; [|discriminate].
-      destruct (store_rename_get _ _ _ _ S) as (b' & G' & GN & _ & _).
+      destruct (store_rename dir (w_defs w) old new) as [e d] eqn:S.
+      destruct e; simpl; try discriminate.
+      destruct (store_rename_get _ _ _ _ S) as (b' & G' & GN & _).
       assert (b' = b) by congruence. subst b'.
       rewrite (find_dag_present _ _ _ O2 GN). rewrite V.
       destruct (name_ok_parts old O1) as (_ & _ & _ & A1 & B1).
       destruct (name_ok_parts new O2) as (_ & _ & _ & A2 & B2).
       unfold hist_rename. rewrite A1, A2, B1, B2. simpl. intros _. exists b, d. auto.
-    - assert (S : store_rename dir (w_defs w) old new = None) by (unfold store_rename; now rewrite G).
+    - pose proof (store_rename_none (w_defs w) old new G) as S.
       destruct (find_dag valid dir (w_defs w) old) as [[] ol]; simpl; try discriminate.
-      rewrite S. simpl. discriminate.
+      destruct (store_rename dir (w_defs w) old new) as [[] d]; simpl in *; try discriminate. congruence.
   Qed.
 
   (* a client rename that fails changes nothing - for names on which the path rules agree (refuted otherwise:
@@ -362,19 +471,17 @@ Section Proofs.
     step_res w (ORename old new) <> ROk -> step_w w (ORename old new) = w.
   Proof.
     intros w old new O1 O2. unfold Model.step_res, Model.step_w. simpl.
-    destruct (fs_get (loc old) (w_defs w)) as [b|] eqn:G.
-    - rewrite (find_dag_present _ _ _ O1 G).
-      destruct (valid b) eqn:V; simpl; auto.
-      destruct (store_rename dir (w_defs w) old new) as [d|] eqn:S; simpl; auto.
-      destruct (store_rename_get _ _ _ _ S) as (b' & G' & GN & _ & _).
-      assert (b' = b) by congruence. subst b'.
-      rewrite (find_dag_present _ _ _ O2 GN). rewrite V.
-      destruct (name_ok_parts old O1) as (_ & _ & _ & A1 & B1).
-      destruct (name_ok_parts new O2) as (_ & _ & _ & A2 & B2).
-      unfold hist_rename. rewrite A1, A2, B1, B2. simpl. congruence.
-    - assert (S : store_rename dir (w_defs w) old new = None) by (unfold store_rename; now rewrite G).
-      destruct (find_dag valid dir (w_defs w) old) as [[] ol]; simpl; auto.
-      rewrite S. simpl. auto.
+    destruct (find_dag valid dir (w_defs w) old) as [r0 ol] eqn:F.
+    destruct r0; simpl; auto.
+    destruct (store_rename dir (w_defs w) old new) as [e d] eqn:S.
+    destruct e; simpl; auto.
+    destruct (store_rename_get _ _ _ _ S) as (b & G & GN & _).
+    rewrite (find_dag_present _ _ _ O1 G) in F.
+    destruct (valid b) eqn:V; [|discriminate]. injection F as <-.
+    rewrite (find_dag_present _ _ _ O2 GN). rewrite V.
+    destruct (name_ok_parts old O1) as (_ & _ & _ & A1 & B1).
+    destruct (name_ok_parts new O2) as (_ & _ & _ & A2 & B2).
+    unfold hist_rename. rewrite A1, A2, B1, B2. simpl. congruence.
   Qed.
 
   (* C18_rename_carries *)
@@ -385,6 +492,7 @@ Section Proofs.
     fs_get (loc new) (w_defs w') = fs_get (loc old) (w_defs w) /\
     fs_get (loc old) (w_defs w) <> None /\
     (loc old <> loc new ->
+       fs_get (loc new) (w_defs w) = None /\
        fs_get (loc old) (w_defs w') = None /\
        h_get (dag_loc dir new) (w_hist w') = (h_get (dag_loc dir old) (w_hist w) ++ h_get (dag_loc dir new) (w_hist w))%list /\
        h_get (dag_loc dir old) (w_hist w') = []) /\
@@ -395,16 +503,17 @@ Section Proofs.
   Proof.
     intros w old new O1 O2 R w'. subst w'.
     destruct (rename_ok_char w old new O1 O2 R) as (b & d & G & V & S & W). rewrite W. simpl.
-    destruct (store_rename_get _ _ _ _ S) as (b' & G' & GN & GO & OT).
+    destruct (store_rename_get _ _ _ _ S) as (b' & G' & GN & GO & GE & OT).
     assert (b' = b) by congruence. subst b'.
     destruct (name_ok_parts old O1) as (_ & _ & C1 & _ & _).
     destruct (name_ok_parts new O2) as (_ & _ & C2 & _ & _).
     unfold dag_loc. rewrite C1, C2.
     repeat split; try congruence; auto.
+    - now apply GO.
+    - now apply GO.
     - now apply h_rename_new.
     - now apply h_rename_old.
-    - intros E. unfold store_rename in S. rewrite G in S. rewrite E in S. rewrite String.eqb_refl in S.
-      injection S as <-. rewrite E, h_rename_same. now destruct w.
+    - intros E. rewrite (GE E), E, h_rename_same. now destruct w.
     - intros. now apply h_rename_other.
   Qed.
 
@@ -456,12 +565,13 @@ Section Proofs.
   Definition client_op (o : op) : Prop := match o with OCreate _ s => s = tmpl | _ => True end.
   Definition defs_valid (w : world) : Prop := forall p t, fs_get p (w_defs w) = Some t -> valid t = true.
 
-  Lemma store_rename_valid : forall f old new d,
-    (forall p t, fs_get p f = Some t -> valid t = true) -> store_rename dir f old new = Some d ->
+  Lemma store_rename_valid : forall f old new e d,
+    (forall p t, fs_get p f = Some t -> valid t = true) -> store_rename dir f old new = (e, d) ->
     forall p t, fs_get p d = Some t -> valid t = true.
   Proof.
-    unfold store_rename. intros f old new d IH S p t G.
-    destruct (fs_get (loc old) f) as [b|] eqn:GB; [|discriminate]. injection S as <-.
+    unfold store_rename. intros f old new e d IH S p t G.
+    destruct (negb (String.eqb (loc old) (loc new)) && fs_mem (loc new) f); [injection S as <- <-; eauto|].
+    destruct (fs_get (loc old) f) as [b|] eqn:GB; [|injection S as <- <-; eauto]. injection S as <- <-.
     destruct (String.eqb (loc old) (loc new)); [eauto|].
     apply fs_get_set_inv in G. destruct G as [[-> ->]|G]; [eauto|].
     apply fs_get_del_inv in G. eauto.
@@ -477,12 +587,14 @@ Section Proofs.
       destruct (fs_mem (loc name) (w_defs w)); simpl; [|eauto].
       intros G. apply fs_get_set_inv in G. destruct G as [[_ ->]|G]; eauto.
     - destruct (find_dag valid dir (w_defs w) old) as [[] ol]; simpl; eauto.
-      destruct (store_rename dir (w_defs w) old new) as [d|] eqn:S; simpl; eauto.
-      pose proof (store_rename_valid _ _ _ _ IH S) as VD.
+      destruct (store_rename dir (w_defs w) old new) as [e d] eqn:S.
+      pose proof (store_rename_valid _ _ _ _ _ IH S) as VD.
+      destruct e; simpl; eauto.
       destruct (find_dag valid dir d new) as [[] nl]; simpl; eauto.
       destruct (hist_rename (w_hist w) ol nl); simpl; eauto.
-    - destruct (store_rename dir (w_defs w) old new) as [d|] eqn:S; simpl; eauto.
-      eapply store_rename_valid; eauto.
+    - destruct (store_rename dir (w_defs w) old new) as [e d] eqn:S.
+      pose proof (store_rename_valid _ _ _ _ _ IH S) as VD.
+      destruct e; simpl; eauto.
     - destruct (fs_mem (loc name) (w_defs w)); simpl; eauto.
       intros G. apply fs_get_del_inv in G. eauto.
     - eauto.
@@ -505,7 +617,8 @@ Section Proofs.
 End Proofs.
 
 (* ------------------------------------------------------------------------------------------- *)
-(* refutations (F18a, F18b) and the foreign-extension class, by computed witnesses              *)
+(* the former F18a / F18b witnesses as positive examples; refutations for the foreign-extension   *)
+(* class (F18c, not repaired)                                                                      *)
 (* ------------------------------------------------------------------------------------------- *)
 
 Definition all_valid (_ : bytes) : bool := true.
@@ -514,34 +627,26 @@ Definition w_two : world :=
   mkW [("/d/a.yaml", "text of a"); ("/d/b.yaml", "text of b")]
       [("/d/a.yaml", [mkRun 100 [mkStatus "ra" 4 []]]); ("/d/b.yaml", [mkRun 200 [mkStatus "rb" 2 []]])] [].
 
-(* C18_rename_fresh (full statement): forall w old new, loc old <> loc new -> fs_get (loc new) (w_defs w) <> None ->
-     step_res w (ORename old new) <> ROk /\ step_w w (ORename old new) = w.
-   FALSE of the code (F18a): DAGStore.Rename is a bare os.Rename; the existing target is replaced and the two
-   histories are merged under the target. *)
-Theorem rename_fresh_refuted :
-  exists valid meta dir w old new,
-    file_loc dir old <> file_loc dir new /\ fs_get (file_loc dir new) (w_defs w) <> None /\
-    name_okb dir old = true /\ name_okb dir new = true /\
-    step_res valid meta dir w (ORename old new) = ROk /\
-    fs_get (file_loc dir new) (w_defs (step_w valid meta dir w (ORename old new))) <> fs_get (file_loc dir new) (w_defs w) /\
-    List.length (h_get (dag_loc dir new) (w_hist (step_w valid meta dir w (ORename old new)))) = 2%nat.
-Proof.
-  exists all_valid, all_valid, "/d", w_two, "a", "b". vm_compute.
-  repeat split; try discriminate; auto.
-Qed.
+(* the witness that refuted C18_rename_fresh before 87dde6e (rename a -> b with b taken): now refused, and
+   definitions and both histories are what they were *)
+Example ex_rename_fresh :
+  file_loc "/d" "a" <> file_loc "/d" "b" /\ fs_get (file_loc "/d" "b") (w_defs w_two) <> None /\
+  step all_valid all_valid "/d" w_two (ORename "a" "b") = (w_two, RExists, []) /\
+  step all_valid all_valid "/d" w_two (OStoreRename "a" "b") = (w_two, RExists, []).
+Proof. vm_compute. repeat split; discriminate. Qed.
 
-(* C18_save_atomic (full statement): forall f n s cut t,
-     fs_get (loc n) (crash_fs f n s cut t) = fs_get (loc n) f \/ fs_get (loc n) (crash_fs f n s cut t) = Some s.
-   FALSE of the code (F18b): os.WriteFile truncates first; a kill between the open and the write leaves an empty file. *)
-Theorem save_atomic_refuted :
-  exists valid dir f n s cut t,
-    fs_get (file_loc dir n) (crash_fs valid dir f n s cut t) <> fs_get (file_loc dir n) f /\
-    fs_get (file_loc dir n) (crash_fs valid dir f n s cut t) <> Some s /\
-    fs_get (file_loc dir n) (crash_fs valid dir f n s cut t) = Some "".
-Proof.
-  exists all_valid, "/d", [("/d/a.yaml", "old text")], "a", "new text", 3%nat, 0%nat. vm_compute.
-  repeat split; discriminate.
-Qed.
+(* the witness that refuted C18_save_atomic before e29932b (kill after 3 primitive steps): the definition
+   still holds the old text; all crash points of that save *)
+Example ex_save_atomic :
+  map (fun cut => fs_get "/d/a.yaml" (crash_fs all_valid "/d" [("/d/a.yaml", "old text")] "a" "new text" "42" cut 0))
+      [0; 1; 2; 3; 4; 5; 6; 7; 8; 9]%nat
+  = [Some "old text"; Some "old text"; Some "old text"; Some "old text"; Some "old text"; Some "old text";
+     Some "old text"; Some "old text"; Some "new text"; Some "new text"] /\
+  crash_fs all_valid "/d" [("/d/a.yaml", "old text")] "a" "new text" "42" 3 4
+  = [("/d/a.yaml", "old text"); ("/d/a.yaml.tmp-42", "new ")] /\
+  snd (step all_valid all_valid "/d" (mkW (crash_fs all_valid "/d" [("/d/a.yaml", "old text")] "a" "new text" "42" 5 0) [] []) OList)
+  = ["a.yaml"].
+Proof. vm_compute. repeat split. Qed.
 
 (* delete_other_dag without the premise on names: deleting a.b (as the API does) erases the history of the DAG
    stored as a.b.yaml, whose definition file is a different one. *)
@@ -599,11 +704,8 @@ Example ex_delete_local :
   h_get "/d/b.yaml" (w_hist (step_w all_valid all_valid "/d" w_two (ODelete "a" (dag_loc "/d" "a")))) = [mkRun 200 [mkStatus "rb" 2 []]].
 Proof. vm_compute. repeat split. Qed.
 
-Example ex_crash_states :
-  map (fun cut => fs_get "/d/a.yaml" (crash_fs all_valid "/d" [("/d/a.yaml", "old")] "a" "new" cut 9)) [0; 1; 2; 3; 4; 5]%nat
-  = [Some "old"; Some "old"; Some "old"; Some ""; Some "new"; Some "new"] /\
-  fs_get "/d/a.yaml" (crash_fs all_valid "/d" [("/d/a.yaml", "old")] "a" "new" 3 2) = Some "ne".
-Proof. vm_compute. split; reflexivity. Qed.
+Example ex_tmp_plain : plain_str "1234567890" = true.
+Proof. reflexivity. Qed.
 
 Example ex_defs_always_valid :
   Forall (client_op template) [OCreate "a" template; OSave "a" "x"; ORename "a" "b"; ODelete "b" "/d/b.yaml"].
